@@ -22,10 +22,10 @@ def universes(tier, seed):
     U2 = U.U2c_indices() if tier == "quick" else list(range(256))
     u2name = "U2c" if tier == "quick" else "U2"
     if tier == "quick":
-        out.append(("K(|SD|<=4)", [("k", k) for k, n in K.items() if len(n.sd[0]) <= 4 and n.n <= 4], ("closure", "few")))
-        out.append(("K(|SD|5..9)", [("k", k) for k, n in K.items() if 5 <= len(n.sd[0]) <= 9 and n.n <= 4], ("depth", 2, "few")))
-        out.append((u2name + "(|SD|<=4)", [("idx", 2, i) for i in U2 if sd_size(("idx", 2, i)) <= 4], ("closure", "few")))
-        out.append((u2name + "(|SD|>4)", [("idx", 2, i) for i in U2 if sd_size(("idx", 2, i)) > 4], ("depth", 2, "few")))
+        out.append(("K(|SD|<=3)", [("k", k) for k, n in K.items() if len(n.sd[0]) <= 3 and n.n <= 4], ("closure", "few")))
+        out.append(("K(|SD|4..9)", [("k", k) for k, n in K.items() if 4 <= len(n.sd[0]) <= 9 and n.n <= 4], ("depth", 2, "few")))
+        out.append((u2name + "(|SD|<=3)", [("idx", 2, i) for i in U2 if sd_size(("idx", 2, i)) <= 3], ("closure", "few")))
+        out.append((u2name + "(|SD|>3)", [("idx", 2, i) for i in U2 if sd_size(("idx", 2, i)) > 3], ("depth", 2, "few")))
         out.append(("K,limit sweep", [("k", k) for k, n in K.items() if n.n <= 4], ("depth", 1, "all")))
         out.append((u2name + ",limit sweep", [("idx", 2, i) for i in U2], ("depth", 1, "all")))
         out.append((f"F3c[{seed % 8}/8]", [("idx", 3, i) for i in U.shard(U.F3_indices(True), seed, 8)], ("depth", 1, "few")))
